@@ -311,6 +311,7 @@ def validate_trace(tag, base, trace_file, consts=None, timeout=600, heap="4g", v
     rej = tagged_lines(text, "TRACE-REJECT")
     acc = tagged_lines(text, "ACCEPTED")
     div = tagged_lines(text, "IMPL-DIVERGED")
+    flg = tagged_lines(text, "SPEC-FLAG")
     marker = "The error occurred when TLC was evaluating the nested"
     if not rej and not acc and marker in text:
         # the recorded observation has a shape on which a clause of the trace specification cannot even be evaluated (an index
@@ -320,7 +321,7 @@ def validate_trace(tag, base, trace_file, consts=None, timeout=600, heap="4g", v
         msg = [ln.strip() for ln in head.splitlines() if ln.strip() and not ln.startswith(("TLC2", "Running", "Picked up", "Parsing", "Semantic", "Starting", "Computing", "Computed", "Finished", "Progress"))]
         rej = [{"at": tl["distinct"], "why": "EVAL: the recorded observation cannot be evaluated against the specification: " + " ".join(msg[-3:])[:400], "event": {}}]
     res = {"accepted": bool(acc) and not rej and "REJECTED" not in text, "reject": rej[0] if rej else None,
-           "impl_diverged": div[0] if div else None,
+           "impl_diverged": div[0] if div else None, "spec_flag": flg[0] if flg else None,
            "states": tl["distinct"], "generated": tl["generated"], "wall_s": round(time.time() - t0, 1),
            "rc": r.returncode, "text": text}
     shutil.rmtree(os.path.join(d, "md"), ignore_errors=True)
